@@ -15,14 +15,14 @@ def run(ck):
     harness, model = asmk.setup(ck, PROP)
     rng = ck.rng
     thorough = ck.tier == "thorough"
-    incbin = {"b5.bin": bytes(range(5)), "b0.bin": b""}
+    incbin = {"b5.bin": bytes(range(5)), "b0.bin": b"", "k4p.bin": bytes(i % 251 for i in range(4097)), "k9.bin": bytes(i % 241 for i in range(9000))}
     kinds = []   # (arch, stmt text, length, trailer)
     for arch in asmk.ARCHES:
         k = [("@db 7", 1, ""), ("@db 7, 8", 2, ""), ('@db "abc"', 3, ""), ('@db "é€"', 5, ""), ("@db fwdv", 1, "@defn fwdv, 9"),
              ("@db fwdv, fwdv", 2, "@defn fwdv, 9"), ("@db 1, fwdv, 2", 3, "@defn fwdv, 9"),
              ("@dw 7", 2, ""), ("@dw 7, 8", 4, ""), ("@dw fwdv", 2, "@defn fwdv, 9"), ("@dw fwdv, fwdv", 4, "@defn fwdv, 9"),
              ("@ds 0", 0, ""), ("@ds 1", 1, ""), ("@ds 3", 3, ""), ("@ds 3, 255", 3, ""), ("@ds 3, fwdv", 3, "@defn fwdv, 9"),
-             ('@incbin "b5.bin"', 5, ""), ('@incbin "b0.bin"', 0, ""),
+             ('@incbin "b5.bin"', 5, ""), ('@incbin "b0.bin"', 0, ""), ('@incbin "k4p.bin"', 4097, ""), ('@incbin "k9.bin"', 9000, ""),
              ('@segment "ADDR"\n@db', 1, ""), ('@segment "ADDR"\n@dw', 2, ""), ('@segment "ADDR"\n@ds 3', 3, "")]
         # relative branches: the base of the distance is the address after the instruction, which is $10000 itself
         # for a branch in the last two bytes
@@ -47,7 +47,7 @@ def run(ck):
                  ("@org $ffff\n ld a, 5\nendl:\n", 2)]:
         progs.append(("z80", t)); meta.append((int(t.split("\n")[0][6:], 16), L))
     for arch, stmt, L, trailer in kinds:
-        for k in range(0, L + 2):
+        for k in (range(0, L + 2) if L < 64 else sorted({1, 2, 4095, 4096, L - 4097, L - 4096, L - 4095, L - 1, L, L + 1})):
             start = TOP - k
             if start > 0xFFFF:
                 # the address $10000 itself can only be reached, not set with @org: reach it with a @ds
